@@ -2,14 +2,19 @@
 
 What this check can and cannot say.  A data race is a property of every memory access of the
 compiled program; a theorem speaks about a model.  Proved (coq/Properties_C09.v) about the control
-LTS of C10 extended with access annotations: no schedule races on a mailbox or a notifier flag, the
-only locations any schedule can race on are `search`, `quitFlag` and the search parameters — and on
-those the model DOES race (C09_model_drf_refuted, finding F9).  Tie: with hook H5 the engine logs
-lock acquire/release and the accesses to the modelled locations; this check (a) compares the lock
-set held at each logged access with the one the model's transition holds, (b) runs the extracted,
-proved-exact detector (raceb_on) and an independent vector-clock detector on every recorded trace.
-NOT covered: every location outside {mailboxes, notifier flags, search, quitFlag, search parameters,
-ponder/infinite}: evaluator tables, history/killer tables, TT, logging, texelutil's worker pool."""
+LTS of C10 extended with the UCI option hand-shake and with access annotations: for every number of
+helpers, tree and schedule no two conflicting accesses to a MODELLED location are unordered by
+happens-before (mutex unlock->lock, seq_cst store->load that reads it, program order); see the file
+for the exact scope of each theorem.
+Tie: with hook H5 (+ H5b for the option / table events) the engine logs lock acquire/release and the
+accesses to the modelled locations; this check (a) compares the lock set held at each logged access
+with the one the model's transition holds, (b) runs the extracted, proved-exact detector (raceb_on)
+and an independent vector-clock detector on every recorded trace; any race is a VIOLATION whose
+replay is the session script + schedule seed.
+Modelled locations: mailboxes (cmdQueue), notifier flags, search, quitFlag, search parameters
+(sc/pos/moves/...), ponder/infinite, pendingOptions, optionsSetFinished, option values (Parameters),
+transposition-table geometry/generation.  NOT covered: everything else — evaluator/NN tables,
+history/killer tables, table entries (C08), TB globals, logging, texelutil's worker pool."""
 import os
 import shutil
 import tempfile
@@ -23,33 +28,43 @@ from props import c10
 PROP_FILE = "Properties_C09.v"
 UCI = 99
 
-# expected lock sets of the model's transitions (coq/Workers/Access.v): event -> (accesses, must hold, must not hold)
+# event -> (accesses [(loc, write, kind)], mutexes the model's transition holds)   (coq/Workers/Access.v)
 MUST = {
-    "N": lambda a: ([("f%d" % a, 1, 0)], {"f%d" % a}, set()),
-    "W": lambda a: ([("f%d" % a, 0, 0), ("f%d" % a, 1, 0)], {"f%d" % a}, set()),
-    "PUSH": lambda a: ([("q%d" % a, 1, 0)], {"q%d" % a}, set()),
-    "POP": lambda a: ([("q%d" % a, 0, 0), ("q%d" % a, 1, 0)], {"q%d" % a}, set()),
-    "EMPTY": lambda a: ([("q%d" % a, 0, 0)], {"q%d" % a}, set()),
-    "RDQUIT": lambda a: ([("x", 0, 0)], set(), {"e"}),
-    "RDSEARCH": lambda a: ([("s", 0, 0)], set(), {"e"}),
-    "RDPARAMS": lambda a: ([("p", 0, 0)], set(), {"e"}),
-    "GO": lambda a: ([("p", 1, 0), ("s", 1, 0)], {"e"}, set()),
-    "QUIT": lambda a: ([("x", 1, 0)], {"e"}, set()),
-    "CLEAR": lambda a: ([("s", 1, 0)], {"e"}, set()),
-    "RDSEARCHU": lambda a: ([("s", 0, 0)], {"e"}, set()),
-    "BEST": lambda a: ([("o", 0, 1)], set(), set()),
-    "UNPONDER": lambda a: ([("o", 1, 1)], set(), set()),
+    "N": lambda a: ([("f%d" % a, 1, "p")], {"f%d" % a}),
+    "W": lambda a: ([("f%d" % a, 0, "p"), ("f%d" % a, 1, "p")], {"f%d" % a}),
+    "PUSH": lambda a: ([("q%d" % a, 1, "p")], {"q%d" % a}),
+    "POP": lambda a: ([("q%d" % a, 0, "p"), ("q%d" % a, 1, "p")], {"q%d" % a}),
+    "EMPTY": lambda a: ([("q%d" % a, 0, "p")], {"q%d" % a}),
+    "RDQUIT": lambda a: ([("x", 0, "a")], set()),
+    "RDSEARCH": lambda a: ([("s", 0, "a")], set()),
+    "RDSEARCHU": lambda a: ([("s", 0, "a")], {"e"}),
+    "RDPARAMS": lambda a: ([("p", 0, "p")], set()),
+    "GO": lambda a: ([("p", 1, "p"), ("s", 1, "a")], {"e"}),
+    "QUIT": lambda a: ([("x", 1, "a")], {"e"}),
+    "CLEAR": lambda a: ([("s", 1, "a")], {"e"}),
+    "BEST": lambda a: ([("o", 0, "r")], set()),
+    "UNPONDER": lambda a: ([("o", 1, "r")], set()),
+    # H5b
+    "SETOPT": lambda a: ([("d", 1, "p"), ("e", 1, "p")], {"e"}),
+    "OPTTAKE": lambda a: ([("d", 0, "p"), ("d", 1, "p")] if a else [("d", 0, "p"), ("e", 1, "p")], {"e"}),
+    "RDFIN": lambda a: ([("e", 0, "p")], {"e"}),
+    "WOPT": lambda a: ([("v", 1, "p")], set()),
+    "ROPT": lambda a: ([("v", 0, "p")], set()),
+    "WTT": lambda a: ([("g", 1, "p")], set()),
+    "RTT": lambda a: ([("g", 0, "p")], set()),
 }
+OWNER_EVENTS = ("N", "W", "PUSH", "POP", "EMPTY")
 MUTEX_KIND = {0: "q", 1: "f", 2: "e"}
+LOCNAME = {"q": "mailbox", "f": "notifier-flag", "s": "search", "x": "quitFlag", "p": "search-parameters", "o": "ponder/infinite",
+           "d": "pendingOptions", "e": "optionsSetFinished", "v": "option-values", "g": "TT-geometry/generation"}
 
 
 def convert(path):
-    """H5 trace -> (tev lines, lockset mismatches, unlocked-read count)."""
+    """H5 trace -> (tev lines, lock-set mismatches, set of event kinds seen)."""
     held = {}
     out = []
     mism = []
-    unlocked_reads = 0
-    fixed_reads = 0
+    kinds = set()
     for ln, line in enumerate(open(path), 1):
         tk = line.split()
         if len(tk) < 6:
@@ -71,25 +86,23 @@ def convert(path):
                 mism.append((ln, line.strip(), "release of a mutex not logged as held"))
             out.append("R %d %s" % (t, m))
         elif kind in MUST:
-            if kind in ("N", "W", "PUSH", "POP", "EMPTY") and a < 0:
+            if kind in OWNER_EVENTS and a < 0:
                 continue
-            accs, must, mustnot = MUST[kind](a)
-            hs = set(h)
-            if not must <= hs:
-                mism.append((ln, line.strip(), "model holds %s here, engine holds %s" % (sorted(must), sorted(hs))))
-            if mustnot & hs:
-                fixed_reads += 1
-            elif mustnot:
-                unlocked_reads += 1
-            for loc, w, at in accs:
-                out.append("A %d %s %d %d" % (t, loc, w, at))
-    return out, mism, unlocked_reads, fixed_reads
+            kinds.add(kind)
+            accs, must = MUST[kind](a)
+            if not must <= set(h):
+                mism.append((ln, line.strip(), "model holds %s here, engine holds %s" % (sorted(must), sorted(h))))
+            for loc, w, k in accs:
+                out.append("A %d %s %d %s" % (t, loc, w, k))
+    return out, mism, kinds
 
 
 def vc_races(lines):
-    """Independent vector-clock (happens-before) race detector over the converted trace."""
+    """Independent vector-clock happens-before detector over the converted trace: program order,
+    unlock->lock, atomic store -> atomic load that reads it (= the last write of the location)."""
     vc = {}
     mvc = {}
+    svc = {}          # location -> vector clock released by its last write if that was an atomic store
     lastw = {}
     lastr = {}
     races = set()
@@ -99,88 +112,124 @@ def vc_races(lines):
             vc[t] = {t: 1}
         return vc[t]
 
-    def leq(ev, cur):      # event (thread u at clock c) happens-before the current point of thread t
+    def leq(ev, cur):
         u, c = ev
         return cur.get(u, 0) >= c
+
+    def join(cur, other):
+        for u, c in other.items():
+            if cur.get(u, 0) < c:
+                cur[u] = c
     for l in lines:
         tk = l.split()
         t = int(tk[1])
         cur = get(t)
         if tk[0] == "Q":
-            for u, c in mvc.get(tk[2], {}).items():
-                if cur.get(u, 0) < c:
-                    cur[u] = c
+            join(cur, mvc.get(tk[2], {}))
         elif tk[0] == "R":
             mvc[tk[2]] = dict(cur)
             cur[t] = cur.get(t, 0) + 1
         else:
-            loc, w, at = tk[2], tk[3] == "1", tk[4] == "1"
+            loc, w, k = tk[2], tk[3] == "1", tk[4]
+            if k == "a" and not w and svc.get(loc) is not None:
+                join(cur, svc[loc])
             me = (t, cur.get(t, 0))
-            for u, (ev, uat) in lastw.get(loc, {}).items():
-                if u != t and not (at and uat) and not leq(ev, cur):
+            for u, (ev, uk) in lastw.get(loc, {}).items():
+                if u != t and (k == "p" or uk == "p") and not leq(ev, cur):
                     races.add(loc)
             if w:
-                for u, (ev, uat) in lastr.get(loc, {}).items():
-                    if u != t and not (at and uat) and not leq(ev, cur):
+                for u, (ev, uk) in lastr.get(loc, {}).items():
+                    if u != t and (k == "p" or uk == "p") and not leq(ev, cur):
                         races.add(loc)
-                lastw.setdefault(loc, {})[t] = (me, at)
+                lastw.setdefault(loc, {})[t] = (me, k)
+                if k == "a":
+                    svc[loc] = dict(cur)
+                    cur[t] = cur.get(t, 0) + 1
+                else:
+                    svc[loc] = None
             else:
-                lastr.setdefault(loc, {})[t] = (me, at)
-            # accesses do not advance the clock; po order within a thread is implicit (same thread skipped)
+                lastr.setdefault(loc, {})[t] = (me, k)
     return races
 
 
 def gen_c09_script(rng):
-    """Sessions biased towards the F9 window: setoption immediately followed by go / quit."""
+    """Sessions around the option hand-shake: setoption immediately before / after go and go ponder."""
     steps = [("send", "uci"), ("ready",)]
     threads = rng.choice([1, 2, 3, 4, 6, 8])
     steps.append(("send", "setoption name Threads value %d" % threads))
-    steps.append(("ready",))
+    if rng.random() < 0.5:
+        steps.append(("ready",))
+    tags = ["threads%d" % threads]
+
+    def setopt():
+        r = rng.random()
+        if r < 0.6:
+            return "setoption name Hash value %d" % rng.choice([1, 2, 4, 8, 16, 32])
+        if r < 0.75:
+            return "ucinewgame"
+        if r < 0.9:
+            return "setoption name MultiPV value %d" % rng.choice([1, 2, 3])
+        return "setoption name Threads value %d" % rng.choice([1, 2, 3, 4])
     for i in range(rng.randint(2, 5)):
         steps.append(("send", "position " + rng.choice(c10.FENS)))
-        for _ in range(rng.randint(1, 3)):
-            steps.append(("send", "setoption name Hash value %d" % rng.choice([1, 2, 4])))
-        k = rng.random()
-        if k < 0.5:
+        k = rng.choice(["opt-go", "opt-ponder", "opt-ponder", "go-opt", "ponder-opt", "opt-infinite"])
+        tags.append(k)
+        if k == "opt-go":
+            for _ in range(rng.randint(1, 2)):
+                steps.append(("send", setopt()))
             steps.append(("send", "go depth %d" % rng.randint(1, 4)))
             steps.append(("best", 1, 30))
-        elif k < 0.8:
+        elif k == "opt-ponder":
+            for _ in range(rng.randint(1, 2)):
+                steps.append(("send", setopt()))
+            steps.append(("send", "go ponder wtime 1000 btime 1000"))
+            steps.append(("sleep", rng.choice([0.0, 0.01, 0.05])))
+            steps.append(("send", rng.choice(["stop", "ponderhit"])))
+            steps.append(("best", 1, 20))
+        elif k == "opt-infinite":
+            steps.append(("send", setopt()))
             steps.append(("send", "go infinite"))
-            steps.append(("sleep", rng.choice([0.0, 0.002, 0.02])))
+            steps.append(("sleep", rng.choice([0.0, 0.01])))
             steps.append(("send", "stop"))
             steps.append(("best", 1, 20))
+        elif k == "go-opt":
+            steps.append(("send", "go movetime %d" % rng.choice([5, 30])))
+            steps.append(("send", setopt()))
+            steps.append(("best", 1, 20))
         else:
-            steps.append(("send", "go ponder wtime 500 btime 500"))
-            steps.append(("sleep", 0.002))
-            steps.append(("send", "ponderhit"))
+            steps.append(("send", "go ponder wtime 1000 btime 1000"))
+            steps.append(("send", setopt()))
+            steps.append(("sleep", rng.choice([0.0, 0.01])))
+            steps.append(("send", "stop"))
             steps.append(("best", 1, 20))
     if rng.random() < 0.5:
-        steps.append(("send", "setoption name Hash value 2"))
+        steps.append(("send", setopt()))
     steps.append(("send", "quit"))
     steps.append(("exit", 20))
-    return steps, ["c09", "threads%d" % threads]
+    return steps, tags
+
+
+CLASSES = ["q", "f", "s", "x", "p", "o", "d", "e", "v", "g"]
 
 
 def one(args):
     exe, drv, steps, sseed, tmpdir, idx = args
     trace = os.path.join(tmpdir, "t%d.trace" % idx)
     r = c10.run_session(exe, steps, {"TEXEL_VERIF_SCHED_SEED": str(sseed)}, trace)
-    res = dict(ok=r["ok"], why=r["why"], races=set(), det=None, mism=[], unlocked=0, fixed=0, n=0, agree=True)
+    res = dict(ok=r["ok"], why=r["why"], races=set(), det=None, mism=[], n=0, agree=True, kinds=set())
     if r["ok"] and os.path.exists(trace):
-        lines, mism, unlocked, fixed = convert(trace)
-        res.update(mism=mism[:3], unlocked=unlocked, fixed=fixed, n=len(lines))
+        lines, mism, kinds = convert(trace)
+        res.update(mism=mism[:3], n=len(lines), kinds=kinds)
         res["races"] = vc_races(lines)
-        small = len(lines) <= 6000
-        rc, out, err = sh([drv] + (["--guarded"] if small else []), input="\n".join(lines) + "\n", timeout=600)
+        # definitional detector: always for the hand-off locations, for mailboxes/flags on short traces
+        cls = ["s", "x", "p", "o", "d", "e", "v", "g"] + (["q", "f"] if len(lines) <= 5000 else [])
+        rc, out, err = sh([drv] + cls, input="\n".join(lines) + "\n", timeout=900)
         det = dict(kv.split("=") for kv in out.split()) if rc == 0 and out.strip() else {}
         res["det"] = det
         if det:
-            for loc, name in (("s", "search"), ("x", "quit"), ("p", "params")):
-                if (loc in res["races"]) != (det.get(name) == "true"):
-                    res["agree"] = False
-            if det.get("guarded") in ("true", "false"):
-                g = any(x[0] in "qf" for x in res["races"])
-                if g != (det["guarded"] == "true"):
+            for c in cls:
+                vcr = any(x[0] == c for x in res["races"])
+                if vcr != (det.get(c) == "true"):
                     res["agree"] = False
         else:
             res["agree"] = False
@@ -189,82 +238,115 @@ def one(args):
     return res
 
 
-def run(ctx):
-    hooked = c10.hook_present() and "VerifSync::Held" in open(os.path.join(REPO, "lib/texellib/hw/parallel.cpp"), errors="replace").read()
-    ctx.rule = ("UCI sessions with Threads 1..8 biased towards the F9 window (setoption immediately followed by go/quit), "
-                "one schedule-perturbation seed each; per recorded trace: lock set at every logged access vs the model's, "
-                "extracted detector raceb_on (proved exact) + independent vector-clock detector; non-trivial = trace with >= 1 search and "
-                ">= 1 unlocked read of search/quitFlag; distinct by (session, sched seed)")
-    ctx.trusted_base = ["Coq 8.16.1 kernel", "extraction + OCaml + drivers/race_driver.ml", "hook H5 (ACQ/REL logged inside the real critical sections; global log order)",
-                        "hand-written access annotations coq/Workers/Access.v tied to the code by the lock-set comparison on recorded traces",
-                        "props/c09.py trace conversion and vector-clock cross-check"]
-    ctx.assumptions = ["PARTIAL: only the modelled shared state {mailboxes, notifier flags, search, quitFlag, search parameters, ponder/infinite}; "
-                       "the property says 'any memory location', which only a whole-program detector sees",
-                       "compiler/CPU implement mutexes and atomics as the C++ memory model says"]
-    ctx.notes["not_covered"] = ("all locations outside the modelled list: evaluator/NN tables, history/killer tables, transposition table slots (C08), "
-                                "Parameters values, TB globals, logging, texelutil's worker pool and the proof-game filter")
-    ok, info = coqbuild.prove(ctx, PROP_FILE, timeout=ctx.scale(900, 1800))
-    if not ok:
-        ctx.violation("C09: proofs of Properties_C09.v do not check", {"coq": info}, no_failing_input=True)
-    ctx.notes["hook_H5_locks_present"] = hooked
-    if not hooked:
-        ctx.notes["mode"] = "tree WITHOUT the lock/access events of hook H5: only the Coq theorems were checked; no conformance run"
-        ctx.log("tree %s: hook H5 (lock events) absent: conformance not run" % REPO)
-        return
-    ctx.notes["mode"] = "event logging + seeded perturbation (no cooperative scheduler)"
-    exe = cbuild.build_engine()
-    drv = coqbuild.extract("ExtractRace.v", "race_driver.ml", "race_driver")
+def hook_level():
+    try:
+        pc = open(os.path.join(REPO, "lib/texellib/hw/parallel.cpp"), errors="replace").read()
+        ec = open(os.path.join(REPO, "app/texel/enginecontrol.cpp"), errors="replace").read()
+    except OSError:
+        return 0
+    if not (c10.hook_present() and "VerifSync::Held" in pc):
+        return 0
+    return 2 if 'VERIF_EV("WOPT")' in ec else 1
+
+
+def campaign(ctx, exe, drv, jobs_spec):
     tmpdir = tempfile.mkdtemp(prefix="c09-", dir="/tmp")
-    nruns = int(os.environ.get("VERIF_C09_RUNS", 0)) or ctx.scale(120, 3000)
-    jobs = []
-    for i in range(nruns):
-        steps, tags = gen_c09_script(ctx.rng) if i % 3 else c10.gen_script(ctx.rng)
-        jobs.append((exe, drv, steps, ctx.rng.randint(1, 10 ** 9), tmpdir, i))
+    jobs = [(exe, drv, steps, sseed, tmpdir, i) for i, (steps, sseed) in enumerate(jobs_spec)]
     t0 = time.time()
     with ThreadPoolExecutor(max_workers=max(2, min(NCPU, 12))) as ex:
         results = list(ex.map(one, jobs))
     shutil.rmtree(tmpdir, ignore_errors=True)
-    ctx.notes["campaign_wall_s"] = round(time.time() - t0, 1)
-    seen = {"s": 0, "x": 0, "p": 0}
+    return jobs, results, time.time() - t0
+
+
+def report(ctx, jobs, results):
+    nrace = 0
+    seen_kinds = set()
     for job, r in zip(jobs, results):
         ctx.evaluated()
-        replay = {"steps": job[2], "sched_seed": job[3]}
+        replay = {"steps": job[2], "sched_seed": job[3],
+                  "how": "VERIF_REPO=<tree> ./check C09 --replay <this file> re-runs the session 40 times with sched seeds sched_seed+i"}
         if not r["ok"]:
             ctx.count("sessions_failed_outcome")      # C10's business; not a C09 verdict
             continue
         ctx.traces_validated += 1
+        seen_kinds |= r["kinds"]
         ctx.count("trace_events", r["n"])
-        ctx.count("unlocked_reads_of_search_or_quitFlag", r["unlocked"])
-        if r["unlocked"] and r["n"]:
-            ctx.nontrivial((str(job[2])[:200], job[3]))
+        opt = bool(r["kinds"] & {"WOPT", "WTT"})
+        if opt:
+            ctx.count("traces_with_option_or_table_writes")
+            ctx.nontrivial((str(job[2])[:300], job[3]))
         if r["mism"]:
             ctx.violation("C09 conformance: engine access with a lock set different from the model's: %s" % (r["mism"][0],),
                           dict(replay, mismatches=r["mism"]), key="lockset:" + r["mism"][0][1].split()[1])
-        if r["fixed"]:
-            ctx.violation("C09: search/quitFlag/parameters are read WITH the engine mutex held in this tree: finding F9 looks fixed, "
-                          "the model (Access.v: ARdQuit/ARdSearch) and C09_model_drf_refuted are out of date", replay,
-                          no_failing_input=True)
         if not r["agree"]:
             ctx.violation("C09: extracted detector and vector-clock detector disagree: %s vs %s" % (r["det"], sorted(r["races"])),
                           replay, no_failing_input=True)
-        other = sorted(x for x in r["races"] if x[0] not in "sxp")
-        if other:
-            ctx.violation("C09: data race on %s (a location the model proves race-free)" % other, replay, key="race:" + other[0])
-        for loc in "sxp":
-            if loc in r["races"]:
-                seen[loc] += 1
-        ctx.sample({"events": r["n"], "races": sorted(r["races"]), "unlocked_reads": r["unlocked"], "detector": r["det"]})
-    names = {"s": "search", "x": "quitFlag", "p": "search-parameters"}
-    for loc, n in seen.items():
-        ctx.count("traces_with_race_on_" + names[loc], n)
-        if n:
-            ctx.violation("F9: data race on EngineMainThread::%s observed on the real engine in %d of %d traces: mainLoop/doSearch read it "
-                          "without the mutex that guards its writer" % (names[loc], n, len(results)),
-                          {"witness_model": "C09_model_drf_refuted (setoption; go|quit right after)", "traces": n},
-                          key="F9:race-on-" + names[loc])
-    ctx.notes["f9_confirmed_on_real_engine"] = {names[k]: v for k, v in seen.items()}
+        if r["races"]:
+            nrace += 1
+            locs = sorted(set(LOCNAME.get(x[0], x) for x in r["races"]))
+            ctx.count("traces_with_race")
+            ctx.violation("C09: data race on %s: two conflicting accesses of different threads not ordered by happens-before "
+                          "(session script + sched seed = replay)" % ", ".join(locs), dict(replay, races=sorted(r["races"])),
+                          key="race:" + "+".join(locs))
+        ctx.sample({"events": r["n"], "races": sorted(r["races"]), "detector": r["det"]})
+    return nrace, seen_kinds
+
+
+def run(ctx):
+    level = hook_level()
+    ctx.rule = ("UCI sessions with Threads 1..8 around the option hand-shake: {setoption Hash / Clear Hash (ucinewgame) / MultiPV / Threads} sent "
+                "immediately before or after {go, go ponder, go infinite} with no delay, stop / ponderhit, plus the C10 session mix; one "
+                "schedule-perturbation seed each; per recorded trace: lock set at every logged access vs the model's, extracted detector "
+                "raceb_on (proved exact) + independent vector-clock detector; non-trivial = trace in which an option value or the table "
+                "geometry is written; distinct by (session, sched seed)")
+    ctx.trusted_base = ["Coq 8.16.1 kernel", "extraction + OCaml + drivers/race_driver.ml",
+                        "hooks H5 + H5b: ACQ/REL logged inside the real critical sections, atomic accesses logged together with the access, global log order "
+                        "(a load reads the last logged store of its location)",
+                        "hand-written access annotations coq/Workers/Access.v tied to the code by the lock-set comparison on recorded traces",
+                        "props/c09.py trace conversion and vector-clock cross-check"]
+    ctx.assumptions = ["PARTIAL: only the modelled shared state {mailboxes, notifier flags, search, quitFlag, search parameters, ponder/infinite, "
+                       "pendingOptions, optionsSetFinished, option values, TT geometry/generation}; the property says 'any memory location', "
+                       "which only a whole-program detector sees",
+                       "ordering of the helpers' reads of option values / TT geometry against the engine thread's writes (ownership transfer over the "
+                       "START / STOP_ACK message edges) is checked on recorded traces only; proved in Coq: every pair of accesses by the UCI and engine threads",
+                       "compiler/CPU implement mutexes and seq_cst atomics as the C++ memory model says; ponder/infinite are treated as relaxed (no ordering derived)"]
+    ctx.notes["locations_covered"] = sorted(LOCNAME.values())
+    ctx.notes["not_covered"] = ("all locations outside the list above: evaluator/NN tables, history/killer tables, transposition table entries (C08), "
+                                "TB globals, logging, texelutil's worker pool and the proof-game filter")
+    ok, info = coqbuild.prove(ctx, PROP_FILE, timeout=ctx.scale(900, 1800))
+    if not ok:
+        ctx.violation("C09: proofs of Properties_C09.v do not check", {"coq": info}, no_failing_input=True)
+    ctx.notes["hook_level"] = {0: "no H5 lock events: only the Coq theorems were checked; no conformance run",
+                               1: "H5 only: option values / TT geometry / pendingOptions are NOT observed (apply hooks/h5b-option-events.patch)",
+                               2: "H5 + H5b: all modelled locations observed"}[level]
+    ctx.log("tree %s: %s" % (REPO, ctx.notes["hook_level"]))
+    if level == 0:
+        return
+    ctx.notes["mode"] = "event logging + seeded perturbation (no cooperative scheduler)"
+    exe = cbuild.build_engine()
+    drv = coqbuild.extract("ExtractRace.v", "race_driver.ml", "race_driver")
+    nruns = int(os.environ.get("VERIF_C09_RUNS", 0)) or ctx.scale(150, 3000)
+    spec = []
+    for i in range(nruns):
+        steps, tags = gen_c09_script(ctx.rng) if i % 4 else c10.gen_script(ctx.rng)
+        spec.append((steps, ctx.rng.randint(1, 10 ** 9)))
+    jobs, results, wall = campaign(ctx, exe, drv, spec)
+    ctx.notes["campaign_wall_s"] = round(wall, 1)
+    nrace, kinds = report(ctx, jobs, results)
+    ctx.notes["event_kinds_observed"] = sorted(kinds)
+    ctx.notes["traces_with_race"] = nrace
 
 
 def replay(ctx, body):
-    ctx.log("C09 replay: re-run ./check C09 with the same VERIF_SEED; races depend on the schedule")
-    run(ctx)
+    rp = body.get("replay", {})
+    if "steps" not in rp or hook_level() == 0:
+        ctx.log("nothing to replay (no session in the file, or tree without hook H5)")
+        return
+    exe = cbuild.build_engine()
+    drv = coqbuild.extract("ExtractRace.v", "race_driver.ml", "race_driver")
+    steps = [tuple(s) for s in rp["steps"]]
+    spec = [(steps, rp.get("sched_seed", 0) + i) for i in range(40)]
+    jobs, results, _ = campaign(ctx, exe, drv, spec)
+    n, _ = report(ctx, jobs, results)
+    ctx.log("replay: race in %d of 40 re-runs" % n)
